@@ -4,6 +4,8 @@
    or a type without checking it (a failed assumption is a TypeError / KeyError /
    AttributeError / IndexError, i.e. an internal error instead of a definition error).
 
+   (State of the code after fix 31aaf4b7: the version probe, the polymorphic key, non-dict tasks
+   and inline parameters next to a non-dict input are definition errors.)
    Mirrors  mistral/lang/parser.py:parse_yaml (`or {}`), _get_spec_version,
               get_workflow_list_spec_from_yaml, get_action_list_spec_from_yaml, get_workbook_spec_from_yaml
             mistral/lang/base.py:instantiate_spec (polymorphic dispatch BEFORE the schema check),
@@ -46,8 +48,7 @@ Definition cls_code (c : cls) : string :=
   | COnClause => "O" | CPublish => "H" | CAction => "A"
   end.
 
-(* VNone: the entry point returns None without building or validating anything *)
-Inductive verdict := VOk | VDsl | VCrash | VNone.
+Inductive verdict := VOk | VDsl | VCrash.
 
 (* outcome and the (class, schema verdict) trace in order *)
 Definition res := (verdict * list (cls * bool))%type.
@@ -143,6 +144,19 @@ Definition merge_ok (left : option jv) (params : obj) : bool :=
          end
   end.
 
+(* TaskSpec._process_action_and_workflow: `if params and not isinstance(self._input, dict)` is a
+   definition error (self._input = data.get('input', {})) *)
+Definition params_allowed (input : option jv) (params : obj) : bool :=
+  match params with
+  | [] => true
+  | _ => match input with
+         | None | Some (JObj _) => true
+         | Some _ => false
+         end
+  end.
+
+Definition is_empty_obj (o : obj) : bool := match o with [] => true | _ => false end.
+
 Definition group_props : list string :=
   ["retry"; "wait-before"; "wait-after"; "timeout"; "pause-before"; "concurrency"; "fail-on"].
 
@@ -214,54 +228,53 @@ Section Walk.
           guard (task_pre_ok t) (fun _ =>
           guard (with_items_ok t) (fun _ =>
           andthen (walk_policies t) (fun _ =>
-          guard (merge_ok (lookup "input" t) (task_params t)) (fun _ =>
-          if direct then walk_clauses t else ok))))
+          if negb (params_allowed (lookup "input" t) (task_params t)) then dsl
+          else guard (merge_ok (lookup "input" t) (task_params t)) (fun _ =>
+               if direct then walk_clauses t else ok))))
       | _ => crash
       end).
 
   (* instantiate_spec on a class with _polymorphic_key = ('type', 'direct') *)
-  Inductive dispatch := DDirect | DReverse | DNoClass | DUnhashable.
+  Inductive dispatch := DDirect | DReverse | DNoClass.
   Definition dispatch_of (m : obj) : dispatch :=
     match lookup "type" m with
     | None => DDirect
     | Some (JStr s) => if String.eqb s "direct" then DDirect
                        else if String.eqb s "reverse" then DReverse else DNoClass
-    | Some (JArr _) | Some (JObj _) => DUnhashable       (* _POLYMORPHIC_CACHE.get((cls, val)) *)
-    | Some _ => DNoClass
+    | Some _ => DNoClass           (* lists / dicts are refused before the cache lookup *)
     end.
 
   Definition inject (k : string) (m : obj) : obj := set "version" v20 (set "name" (JStr k) m).
 
-  (* one entry of `tasks` inside TaskSpecList (type already injected) *)
+  (* one entry of `tasks`: WorkflowSpec.__init__ injects the type into the tasks that are dicts,
+     TaskSpecList injects name / version and instantiates (a non-dict is a definition error) *)
   Definition walk_task_entry (direct : bool) (wf_type : jv) (kv : string * jv) : res :=
     let (k, v) := kv in
     if String.eqb k "version" then ok
     else match v with
          | JObj t => walk_task direct (JObj (inject k (set "type" wf_type t)))
-         | _ => dsl                                        (* unreachable: see all_tasks_are_dicts *)
+         | _ => dsl                                        (* "must be backed by a dictionary" *)
          end.
-
-  Definition all_tasks_are_dicts (ts : obj) : bool := forallb (fun kv => is_obj (snd kv)) ts.
 
   (* WorkflowSpec on the injected workflow dict (after dispatch) *)
   Definition walk_wf_body (direct : bool) (w : obj) : res :=
     step (if direct then CWfD else CWfR) (JObj w) (fun _ =>
-      guard (present (lookup "name" w) && entries_ok (lookup "input" w)) (fun _ =>
-      andthen (match nonnull (lookup "task-defaults" w) with Some td => walk_defaults td | None => ok end)
-              (fun _ =>
-                 match lookup "tasks" w with
-                 | Some (JObj ts) =>
-                     guard (all_tasks_are_dicts ts)                         (* task['type'] = self._type *)
-                           (fun _ => each (walk_task_entry direct (wf_type_of w)) ts)
-                 | _ => crash
-                 end))).
+      match lookup "tasks" w with
+      | Some (JObj ts) =>
+          if is_empty_obj ts || present (lookup "version" ts) then dsl   (* no tasks / 'version' cannot be a task name *)
+          else
+          guard (present (lookup "name" w) && entries_ok (lookup "input" w)) (fun _ =>
+          andthen (match nonnull (lookup "task-defaults" w) with Some td => walk_defaults td | None => ok end)
+                  (fun _ => each (walk_task_entry direct (wf_type_of w)) ts))
+      | Some t => if truthy t then crash else dsl             (* `'version' in <non-container>` / no tasks *)
+      | None => dsl                                           (* "doesn't have any tasks" *)
+      end).
 
   Definition walk_wf (w : obj) : res :=
     match dispatch_of w with
     | DDirect => walk_wf_body true w
     | DReverse => walk_wf_body false w
     | DNoClass => dsl
-    | DUnhashable => crash
     end.
 
   Definition walk_action (d : jv) : res :=
@@ -310,37 +323,23 @@ Section Walk.
     | Some _ => crash                                    (* data.items() *)
     end.
 
-  (* parser._get_spec_version: `'version' in spec_dict`, then spec_dict['version'] *)
-  Definition version_probe_ok (d : jv) : bool :=
-    match d with
-    | JObj _ => true
-    | JArr l => negb (existsb (jv_eqb (JStr "version")) l)
-    | JStr s => negb (contains "version" s)
-    | _ => false
-    end.
-
-  (* parser._get_spec_version + the `== V2_0` test of get_workbook_spec:
-     which of build / definition error / return None the version value selects *)
-  Inductive vgate := GBuild | GDsl | GNone.
-  Definition version_gate (d : jv) : vgate :=
+  (* parser._get_spec_version: the version of a dict must read as the float 2.0
+     (fl s = (str(float(s)) == '2.0')); anything that is not a dict counts as 2.0 *)
+  Definition version_ok (d : jv) : bool :=
     match d with
     | JObj wb =>
         match lookup "version" wb with
-        | None => GBuild
-        | Some (JStr s) => if String.eqb s "2.0" then GBuild else if fl s then GNone else GDsl
-        | Some (JNum n den) => if Z.eqb n 2 && Pos.eqb den 1 then GNone else GDsl
-        | Some _ => GDsl
+        | None => true
+        | Some (JStr s) => String.eqb s "2.0" || fl s
+        | Some (JNum n den) => Z.eqb n 2 && Pos.eqb den 1
+        | Some _ => false
         end
-    | _ => GBuild          (* no 'version' member found: 2.0 assumed *)
+    | _ => true
     end.
 
   Definition walk_wb (d0 : jv) : res :=
     let d := or_empty d0 in
-    guard (version_probe_ok d) (fun _ =>
-    match version_gate d with
-    | GDsl => dsl
-    | GNone => (VNone, [])
-    | GBuild =>
+    if negb (version_ok d) then dsl else
     step CWb d (fun _ =>
       match d with
       | JObj wb =>
@@ -348,12 +347,11 @@ Section Walk.
           andthen (walk_section false (lookup "actions" wb))
                   (fun _ => walk_section true (lookup "workflows" wb)))
       | _ => crash
-      end)
-    end).
+      end).
 
   (* ---- printing for the correspondence suite ---- *)
   Definition verdict_code (v : verdict) : string :=
-    match v with VOk => "ok" | VDsl => "dsl" | VCrash => "crash" | VNone => "none" end.
+    match v with VOk => "ok" | VDsl => "dsl" | VCrash => "crash" end.
 
   Fixpoint trace_code (t : list (cls * bool)) : string :=
     match t with
